@@ -307,6 +307,36 @@ pub fn run(args: &Args, rep: &mut Report) {
         if hb(&hw.hash()) != one || hw.into_inner() != bytes {
             rep.violation(P, "hash-streaming", "HashedWrite differs from one-shot hash", w("stream"));
         }
+        // the same through an inner writer that accepts only part of each buffer (as files, pipes and
+        // sockets may): write_all retries the rest, and the hash must still be that of the bytes written
+        {
+            struct Short(Vec<u8>, usize);
+            impl Write for Short {
+                fn write(&mut self, b: &[u8]) -> std::io::Result<usize> {
+                    let n = b.len().min(self.1);
+                    self.0.extend_from_slice(&b[..n]);
+                    Ok(n)
+                }
+                fn flush(&mut self) -> std::io::Result<()> {
+                    Ok(())
+                }
+            }
+            let mut hw = HashedWrite::new(Short(Vec::new(), rng.urange(1, 700)));
+            let mut pos = 0;
+            while pos < bytes.len() {
+                let l = rng.urange(1, 3000.min(bytes.len() - pos));
+                hw.write_all(&bytes[pos..pos + l]).unwrap();
+                pos += l;
+            }
+            let h2 = hb(&hw.hash());
+            let inner = hw.into_inner();
+            if inner.0 != bytes {
+                rep.inconclusive(P, "short writer harness lost bytes");
+            } else if h2 != one {
+                rep.violation(P, "hash-streaming-short-writes", "HashedWrite over a partially-writing inner writer hashes bytes that were not written (differs from the one-shot hash of the written bytes)", w("short writes"));
+            }
+            rep.count(P, "short_write_streams", 1);
+        }
 
         // uploader hash == what both validators recompute from a serialization (small lists only:
         // needs real chunk data)
@@ -336,6 +366,28 @@ pub fn run(args: &Args, rep: &mut Report) {
                 });
                 if !ok_sync || !ok_async {
                     rep.violation(P, "hash-uploader-vs-validator", "validators do not recompute the uploader's xorb hash", w(&format!("sync={ok_sync} async={ok_async}")));
+                }
+                // ... and what they recompute is that hash and no other: a different claimed hash, or a footer
+                // recording a different hash, must not be accepted
+                let mut other = xh;
+                other[rng.usize_below(4)] ^= 1 << rng.below(64);
+                let mut forged = buf.clone();
+                {
+                    // footer starts info_length + 4 bytes from the end; the recorded hash follows ident(7)+version(1)
+                    let l = forged.len();
+                    let il = u32::from_le_bytes([forged[l - 4], forged[l - 3], forged[l - 2], forged[l - 1]]) as usize;
+                    let hp = l - 4 - il + 8;
+                    forged[hp + rng.usize_below(32)] ^= 1 << rng.below(8);
+                }
+                for (bytes, claimed, what) in [(&buf, &other, "other claimed hash"), (&forged, &xh, "footer records another hash")] {
+                    let acc_sync = matches!(CasObject::validate_cas_object(&mut Cursor::new(bytes), claimed), Ok(Some(_)));
+                    let acc_async = rt.block_on(async {
+                        let mut r = futures::io::Cursor::new(bytes);
+                        matches!(cas_object::validate_cas_object_from_async_read(&mut r, claimed).await, Ok(Some(_)))
+                    });
+                    if acc_sync || acc_async {
+                        rep.violation(P, "hash-validator-accepts-other-hash", "a validator accepts a xorb under a hash that is not the one recomputed from its chunks", w(&format!("{what}: sync={acc_sync} async={acc_async}")));
+                    }
                 }
                 validated = true;
                 rep.count(P, "validator_agreements", 1);
